@@ -20,6 +20,18 @@ def body(r):
     rr = R.stream(r.seed, "c09-plans")
     worlds = [swarm.build_world(r.seed, 40000 + i, "ns", ["ns"], rr, p_fault=0.35) for i in range(n_ns)]
     worlds += [swarm.build_world(r.seed, 50000 + i, "ins", ["ins"], rr, p_fault=0.35) for i in range(n_ins)]
+    # targeted corner: rejection sampling in the rescaled space (every parameter has a prime prior) on a model
+    # whose second parameter is unconstrained, so the data-dependent bounds move (and grow) between trainings
+    from sim import scenarios as S
+
+    for i in range(8 if r.tier == "quick" else 200):
+        scn = S.simple_ns(r.seed, 45000 + i, nlive=rr.choice([20, 30, 40]), maximum_uninformed=15,
+                          training_frequency=rr.choice([5, 8, 12]), cooldown=4,
+                          reparameterisations={"rescaletobounds": {"parameters": ["x0", "x1"], "update_bounds": True,
+                                                                   "prior": "uniform"}})
+        scn["model"] = {"name": "gauss_x0only", "dims": 2}
+        worlds.append({"seed": R.derive(r.seed, "c09-prime", i), "scenario": scn, "monitors": ["ns"], "plan": [],
+                       "budget_steps": swarm.BUDGET_STEPS})
     swarm.run_swarm(r, PROP, worlds, oracles=ORACLES)
     return r.finish(
         minimise=swarm.make_minimiser(PROP, (), ORACLES),
